@@ -275,6 +275,9 @@ func rndMixDoc(rng *rand.Rand, di int) jx.Obj {
 				}
 				pi[m] = op
 			}
+			if gen.Chance(rng, 15) {
+				pi["$ref"] = "shared-items.json#/x-items/it" + s
+			}
 			paths[p] = pi
 		}
 		d["paths"] = paths
@@ -346,7 +349,12 @@ func (e mixinEngine) Gen(prop, tier string, seed uint64, idx int) *runner.Case {
 			if id != "" {
 				op["operationId"] = id
 			}
-			return jx.Obj{"swagger": "2.0", "paths": jx.Obj{path: jx.Obj{m: op}}}
+			pi := jx.Obj{m: op}
+			if (idless == 2 && di == 0) || (idless == 3 && di > 0) {
+				// a path item may carry a $ref next to its own operations: their ids count all the same
+				pi["$ref"] = "shared-items.json#/x-items/it" + strconv.Itoa(di)
+			}
+			return jx.Obj{"swagger": "2.0", "paths": jx.Obj{path: pi}}
 		}
 		addIdless := func(d jx.Obj, di, n int) {
 			for i := 0; i < n; i++ {
